@@ -49,6 +49,55 @@ macro_rules! say {
     ($($arg:tt)*) => { $crate::core::say_str(&format!($($arg)*)) };
 }
 
+// ------------------------------------------------------------------ watchdog
+//
+// A run that never returns (a loop inside the system under test that makes no call
+// through any seam) cannot be detected by counting simulator steps. The only use of a
+// real clock in the simulator is this safety net: a run that has been executing for
+// SIMCHECK_HANG_SECS (default 30) wall-clock seconds — five orders of magnitude above
+// the longest legitimate run — is reported as class "no-termination" with its replay
+// file and the process exits. It never influences any choice the simulator makes.
+
+pub struct Watch {
+    /// 0 = idle, otherwise run index + 1 (or u64::MAX in the main phase)
+    tag: AtomicU64,
+    start_ms: AtomicU64,
+}
+
+impl Watch {
+    pub const fn new() -> Self {
+        Watch { tag: AtomicU64::new(0), start_ms: AtomicU64::new(0) }
+    }
+    fn begin(&self, tag: u64) {
+        self.start_ms.store(now_ms(), Ordering::SeqCst);
+        self.tag.store(tag, Ordering::SeqCst);
+    }
+    fn end(&self) {
+        self.tag.store(0, Ordering::SeqCst);
+    }
+    fn overdue(&self) -> Option<u64> {
+        let t = self.tag.load(Ordering::SeqCst);
+        if t != 0 && now_ms().saturating_sub(self.start_ms.load(Ordering::SeqCst)) > hang_limit_ms() {
+            Some(t)
+        } else {
+            None
+        }
+    }
+}
+
+fn now_ms() -> u64 {
+    static T0: std::sync::OnceLock<Instant> = std::sync::OnceLock::new();
+    T0.get_or_init(Instant::now).elapsed().as_millis() as u64
+}
+
+fn hang_limit_ms() -> u64 {
+    std::env::var("SIMCHECK_HANG_SECS").ok().and_then(|s| s.parse::<u64>().ok()).unwrap_or(30) * 1000
+}
+
+/// main-phase (shrinking, confirmation, replay) activity: what is executing right now
+static MAIN_WATCH: Watch = Watch::new();
+static MAIN_CURRENT: Mutex<Option<(Value, bool)>> = Mutex::new(None); // (replay document, replay_mode)
+
 // ------------------------------------------------------------------ tiers
 
 #[derive(Clone, Copy, Debug, PartialEq, Eq)]
@@ -413,7 +462,81 @@ fn exec_sequence<P: Prop>(p: &P, cases: &[P::Case], stats: &mut Stats) -> Verdic
 }
 
 fn exec_guarded<P: Prop>(p: &P, case: &P::Case, stats: &mut Stats) -> Verdict {
-    exec_sequence(p, std::slice::from_ref(case), stats)
+    exec_watched(p, std::slice::from_ref(case), stats)
+}
+
+/// exec_sequence in the main phase (shrinking, sequence minimisation, replay): the sequence is
+/// published so that the watchdog can turn a hang into a replay file of its own.
+fn exec_watched<P: Prop>(p: &P, cases: &[P::Case], stats: &mut Stats) -> Verdict {
+    {
+        let mut cur = MAIN_CURRENT.lock().unwrap();
+        let replay_mode = cur.as_ref().map(|c| c.1).unwrap_or(false);
+        let mut doc = json!({
+            "property": p.id(),
+            "violation": { "class": "no-termination", "key": format!("{}:no-termination", p.id()), "detail": format!("the case did not return within {} s of wall-clock time", hang_limit_ms() / 1000) },
+            "note": "a case that never returns; replay: bin/check --replay <this file> (reports REPRODUCED after the same timeout)",
+            "case": p.to_json(cases.last().expect("non-empty")),
+        });
+        if cases.len() > 1 {
+            doc["executed_before_on_the_same_thread"] = Value::Array(cases[..cases.len() - 1].iter().map(|c| p.to_json(c)).collect());
+        }
+        *cur = Some((doc, replay_mode));
+    }
+    MAIN_WATCH.begin(u64::MAX);
+    let v = exec_sequence(p, cases, stats);
+    MAIN_WATCH.end();
+    v
+}
+
+fn exec_watched_replay<P: Prop>(p: &P, cases: &[P::Case], stats: &mut Stats) -> Verdict {
+    MAIN_WATCH.begin(u64::MAX);
+    let v = exec_sequence(p, cases, stats);
+    MAIN_WATCH.end();
+    v
+}
+
+/// Runs `body` with a watchdog over the main phase. On a hang: in replay mode print
+/// REPRODUCED and exit 1; otherwise persist the hanging case, confirm it in a fresh process,
+/// print the VIOLATION line and exit 1 (exit 2 if it does not reproduce).
+fn with_main_watchdog<R>(id: &str, verif_dir: &str, seed: u64, body: impl FnOnce() -> R) -> R {
+    let done = AtomicBool::new(false);
+    std::thread::scope(|s| {
+        s.spawn(|| {
+            while !done.load(Ordering::SeqCst) {
+                std::thread::sleep(std::time::Duration::from_millis(100));
+                if MAIN_WATCH.overdue().is_some() {
+                    let cur = MAIN_CURRENT.lock().unwrap().clone();
+                    let (doc, replay_mode) = cur.unwrap_or((json!({}), false));
+                    if replay_mode {
+                        say!("REPRODUCED class=no-termination key={}:no-termination detail=the case did not return within {} s", id, hang_limit_ms() / 1000);
+                        std::process::exit(1);
+                    }
+                    let dir = format!("{verif_dir}/replays");
+                    let _ = std::fs::create_dir_all(&dir);
+                    let path = format!("{dir}/{id}-{seed}-hang.json");
+                    let _ = std::fs::write(&path, serde_json::to_string_pretty(&doc).unwrap());
+                    report_hang(id, &path);
+                }
+            }
+        });
+        let r = body();
+        done.store(true, Ordering::SeqCst);
+        r
+    })
+}
+
+fn report_hang(id: &str, path: &str) -> ! {
+    match confirm_in_fresh_process(path, "no-termination") {
+        Ok(()) => {
+            say!("  class=no-termination key={id}:no-termination detail=a case did not return within {} s of wall-clock time (no call through any seam, so no step budget could stop it)", hang_limit_ms() / 1000);
+            say!("VIOLATION property={id} replay={path}");
+            std::process::exit(1);
+        }
+        Err(e) => {
+            say!("HARNESS-ERROR property={id} a run exceeded the wall-clock watchdog but its replay {path} did not: {e}");
+            std::process::exit(2);
+        }
+    }
 }
 
 pub fn run_batch<P: Prop>(p: &P, opt: &Options) -> BatchResult {
@@ -430,10 +553,41 @@ pub fn run_batch<P: Prop>(p: &P, opt: &Options) -> BatchResult {
     let digest_sum = AtomicU64::new(0);
     let known = KnownFindings::load(&format!("{}/known_findings.json", opt.verif_dir));
     let known_hits = AtomicU64::new(0);
+    let n_workers = opt.threads.max(1);
+    let watch: Vec<Watch> = (0..n_workers).map(|_| Watch::new()).collect();
+    let workers_left = AtomicU64::new(n_workers as u64);
+    let next_worker = AtomicU64::new(0);
 
     std::thread::scope(|s| {
-        for _ in 0..opt.threads.max(1) {
+        // watchdog over the batch (see the watchdog section above)
+        s.spawn(|| {
+            while workers_left.load(Ordering::SeqCst) > 0 {
+                std::thread::sleep(std::time::Duration::from_millis(100));
+                for w in &watch {
+                    if let Some(tag) = w.overdue() {
+                        let run = tag - 1;
+                        let case = p.generate(&mut Rng::new(mix(opt.seed, p.tag(), run)), opt.tier, run);
+                        let v = Violation {
+                            class: "no-termination".into(),
+                            key: format!("{}:no-termination", p.id()),
+                            detail: format!("run {run} did not return within {} s of wall-clock time", hang_limit_ms() / 1000),
+                        };
+                        let path = write_replay(p, opt, run, std::slice::from_ref(&case), &v);
+                        report_hang(p.id(), &path);
+                    }
+                }
+            }
+        });
+        for _ in 0..n_workers {
             s.spawn(|| {
+                struct Dec<'a>(&'a AtomicU64);
+                impl Drop for Dec<'_> {
+                    fn drop(&mut self) {
+                        self.0.fetch_sub(1, Ordering::SeqCst);
+                    }
+                }
+                let _dec = Dec(&workers_left);
+                let my_watch = &watch[next_worker.fetch_add(1, Ordering::SeqCst) as usize];
                 let mut local = Stats::new();
                 let mut local_hashes: Vec<(u64, u64)> = Vec::new();
                 let mut local_digest: u64 = 0;
@@ -460,7 +614,9 @@ pub fn run_batch<P: Prop>(p: &P, opt: &Options) -> BatchResult {
                             let mut rng = Rng::new(mix(opt.seed, p.tag(), run));
                             let case = p.generate(&mut rng, opt.tier, run);
                             let mut st = Stats::new();
+                            my_watch.begin(run + 1);
                             let verdict = exec_plain(p, &case, &mut st);
+                            my_watch.end();
                             let mut h = st.log;
                             h.u64(if verdict.is_ok() { 0 } else { 1 });
                             let hv = h.finish();
@@ -524,88 +680,102 @@ pub fn run_batch<P: Prop>(p: &P, opt: &Options) -> BatchResult {
     }
     let runs = executed.load(Ordering::Relaxed);
 
-    // ---- violations: group by key, smallest run first, shrink, persist, confirm
+    // ---- violations: group by (class, key), smallest run first. The fresh process is the judge:
+    // a finding counts only if its replay file fails the same way in a new process.
     let mut found = found.into_inner().unwrap();
     found.sort_by_key(|f| f.run);
-    let mut seen_keys: Vec<String> = vec![];
+    let mut reported: Vec<String> = vec![]; // groups already reported (violation or known finding)
+    let mut attempts: BTreeMap<String, (u32, String)> = BTreeMap::new(); // group -> (tries, last failure text)
     let mut n_viol = 0u64;
     let mut n_known = 0u64;
     let mut exit_code = 0;
-    for f in found {
-        let group = format!("{}|{}", f.v.class, f.v.key);
-        if seen_keys.contains(&group) {
-            continue;
-        }
-        seen_keys.push(group);
-        if let Some(what) = known.matches(p.id(), &f.v.key) {
-            say!("KNOWN-FINDING: property={} {} [{}]", p.id(), what, f.v.key);
-            n_known += 1;
-            continue;
-        }
-        n_viol += 1;
-        if n_viol > 4 {
-            continue; // report at most four distinct violations in full
-        }
-        // Does the case fail on its own, on a fresh thread? Then it is shrunk as a single case.
-        // Otherwise it needed state left behind by earlier runs of its chunk: replay the chunk
-        // prefix as a sequence and minimise that.
-        let mut st0 = Stats::new();
-        let alone = exec_guarded(p, &f.case, &mut st0);
-        let (seq, v): (Vec<P::Case>, Violation) = match alone {
-            Err(ref v2) if v2.class == f.v.class => {
-                let (small, v) = shrink_case(p, &f.case, &f.v);
-                (vec![small], v)
+    with_main_watchdog(p.id(), &opt.verif_dir, opt.seed, || {
+        for f in found {
+            let group = format!("{}|{}", f.v.class, f.v.key);
+            if reported.contains(&group) {
+                continue;
             }
-            _ => {
-                let mut cases: Vec<P::Case> = (f.chunk_lo..=f.run).map(|r| p.generate(&mut Rng::new(mix(opt.seed, p.tag(), r)), opt.tier, r)).collect();
-                let mut stq = Stats::new();
-                match exec_sequence(p, &cases, &mut stq) {
-                    Err(ref v2) if v2.class == f.v.class => {
-                        // greedy: drop earlier members while the last one still fails the same way
-                        let mut i = 0;
-                        while i + 1 < cases.len() {
-                            let mut cand = cases.clone();
-                            cand.remove(i);
-                            let mut stc = Stats::new();
-                            match exec_sequence(p, &cand, &mut stc) {
-                                Err(ref v3) if v3.class == f.v.class => cases = cand,
-                                _ => i += 1,
-                            }
-                        }
-                        let mut stf = Stats::new();
-                        let vfinal = exec_sequence(p, &cases, &mut stf).err().unwrap_or_else(|| f.v.clone());
-                        (cases, vfinal)
+            if let Some(what) = known.matches(p.id(), &f.v.key) {
+                say!("KNOWN-FINDING: property={} {} [{}]", p.id(), what, f.v.key);
+                n_known += 1;
+                reported.push(group);
+                continue;
+            }
+            if reported.len() as u64 - n_known >= 4 {
+                continue; // report at most four distinct violations in full
+            }
+            let tries = attempts.entry(group.clone()).or_insert((0, String::new()));
+            if tries.0 >= 6 {
+                continue;
+            }
+            tries.0 += 1;
+
+            // candidate 1: the case alone; candidate 2: the prefix of its chunk, in order, on one thread
+            let single = vec![f.case.clone()];
+            let prefix: Vec<P::Case> = (f.chunk_lo..=f.run).map(|r| p.generate(&mut Rng::new(mix(opt.seed, p.tag(), r)), opt.tier, r)).collect();
+            let mut chosen: Option<Vec<P::Case>> = None;
+            for cand in [single, prefix] {
+                let path = write_replay(p, opt, f.run, &cand, &f.v);
+                match confirm_in_fresh_process(&path, &f.v.class) {
+                    Ok(()) => {
+                        chosen = Some(cand);
+                        break;
                     }
-                    _ => {
-                        say!(
-                            "HARNESS-ERROR property={} run {} failed inside the batch ({}: {}) but neither alone nor as the sequence of its chunk on a fresh thread: state outside the simulator's control (a process-wide static?)",
-                            p.id(), f.run, f.v.class, f.v.detail
-                        );
-                        if exit_code == 0 {
-                            exit_code = 2;
-                        }
-                        continue;
-                    }
+                    Err(e) => attempts.get_mut(&group).unwrap().1 = e,
+                }
+                if cand_len_is_one_chunk(f.chunk_lo, f.run) {
+                    break; // the prefix is the case itself
                 }
             }
-        };
-        let path = write_replay(p, opt, f.run, &seq, &v);
-        match confirm_in_fresh_process(&path, &v.class) {
-            Ok(()) => {
-                say!("  class={} key={} run={} detail={}", v.class, v.key, f.run, v.detail);
-                say!("VIOLATION property={} replay={}", p.id(), path);
-                exit_code = 1;
-            }
-            Err(e) => {
-                say!(
-                    "HARNESS-ERROR property={} replay {} did not reproduce in a fresh process: {}",
-                    p.id(),
-                    path,
-                    e
-                );
-                if exit_code == 0 {
-                    exit_code = 2;
+            let Some(base) = chosen else {
+                continue; // depends on state outside the case and its chunk: try the next occurrence
+            };
+
+            // minimise in this process, then let a fresh process judge the minimised file;
+            // if it disagrees (state leaked into this process), keep the unminimised one
+            let (small, v) = if base.len() == 1 {
+                let (c, v) = shrink_case(p, &base[0], &f.v);
+                (vec![c], v)
+            } else {
+                let mut cases = base.clone();
+                let mut i = 0;
+                while i + 1 < cases.len() {
+                    let mut cand = cases.clone();
+                    cand.remove(i);
+                    let mut stc = Stats::new();
+                    match exec_watched(p, &cand, &mut stc) {
+                        Err(ref v3) if v3.class == f.v.class => cases = cand,
+                        _ => i += 1,
+                    }
                 }
+                let mut stf = Stats::new();
+                let vfinal = exec_watched(p, &cases, &mut stf).err().unwrap_or_else(|| f.v.clone());
+                (cases, vfinal)
+            };
+            let mut path = write_replay(p, opt, f.run, &small, &v);
+            let mut v_rep = v;
+            if confirm_in_fresh_process(&path, &v_rep.class).is_err() {
+                path = write_replay(p, opt, f.run, &base, &f.v);
+                v_rep = f.v.clone();
+                if confirm_in_fresh_process(&path, &v_rep.class).is_err() {
+                    continue;
+                }
+            }
+            say!("  class={} key={} run={} detail={}", v_rep.class, v_rep.key, f.run, v_rep.detail);
+            say!("VIOLATION property={} replay={}", p.id(), path);
+            n_viol += 1;
+            exit_code = 1;
+            reported.push(group);
+        }
+    });
+    for (group, (tries, last)) in &attempts {
+        if !reported.contains(group) {
+            say!(
+                "HARNESS-ERROR property={} {} occurrence(s) of [{}] failed inside the batch, but none of their replay files (the case alone, or the prefix of its chunk on one thread) fails in a fresh process: the outcome depends on state outside the simulator's control (a process-wide static?). last: {}",
+                p.id(), tries, group, last
+            );
+            if exit_code == 0 {
+                exit_code = 2;
             }
         }
     }
@@ -625,6 +795,10 @@ pub fn run_batch<P: Prop>(p: &P, opt: &Options) -> BatchResult {
         known: n_known,
         exit_code,
     }
+}
+
+fn cand_len_is_one_chunk(lo: u64, run: u64) -> bool {
+    lo == run
 }
 
 // ------------------------------------------------------------------ shrinking
@@ -725,7 +899,9 @@ pub fn replay_file<P: Prop>(p: &P, doc: &Value) -> i32 {
     seq.push(p.from_json(&doc["case"]));
     let want = doc["violation"]["class"].as_str().unwrap_or("").to_string();
     let mut st = Stats::new();
-    match exec_sequence(p, &seq, &mut st) {
+    *MAIN_CURRENT.lock().unwrap() = Some((json!({}), true));
+    let verdict = with_main_watchdog(p.id(), "/tmp", 0, || exec_watched_replay(p, &seq, &mut st));
+    match verdict {
         Ok(()) => {
             say!("NOT-REPRODUCED property={} (case passes on this tree)", p.id());
             0
